@@ -152,6 +152,9 @@ package db
 //@   before[cached-rev-is-new]             call channelsForRevTreeID#1 $1 == newRevID
 //@   before[cached-channels-of-rev]        call Put#1 $2.Channels == callres(channelsForRevTreeID, 1, 0)
 //@   before[cached-channels-of-rev-upsert] call Upsert#1 $2.Channels == callres(channelsForRevTreeID, 1, 0)
+// (C18) a re-read on a CAS retry asks for every xattr the sync function can see (system xattrs and the configured user xattr)
+//@   also C18: rereads-all-sync-inputs
+//@   before[rereads-all-sync-inputs] call WriteUpdateWithXattrs#1 $3 == callres(syncGlobalSyncMouAndUserXattrKeys, 1, 0)
 //@   ensures[release-doc-seq] called(WriteUpdateWithXattrs, 1) && !isNilErr(callres(WriteUpdateWithXattrs, 1, 1)) && !isTimeoutErr(callres(WriteUpdateWithXattrs, 1, 1)) && docSequence > 0 ==> (docSequence in releaseAttempted)
 //@   ensures[release-unused]  called(WriteUpdateWithXattrs, 1) && !isNilErr(callres(WriteUpdateWithXattrs, 1, 1)) && !isTimeoutErr(callres(WriteUpdateWithXattrs, 1, 1)) ==> (forall k int :: {unusedSequences[k]} 0 <= k && k < len(unusedSequences) ==> (unusedSequences[k] in releaseAttempted))
 //@   ensures[surfaces]        called(WriteUpdateWithXattrs, 1) && !isNilErr(callres(WriteUpdateWithXattrs, 1, 1)) && callres(WriteUpdateWithXattrs, 1, 1) != box(base.ErrUpdateCancel) ==> !isNilErr(err)
